@@ -1,7 +1,11 @@
-(* Model/C16.v (DESIGN: HttpTurn) — one exchange stream over HTTP, as a history of
-   continuation requests (vgirpc/http_stream.go handleStreamExchange ->
-   handleStreamCancel / handleExchangeCall, stripFrameworkTickMetadata,
-   packCursorToken; vgirpc/stream.go OutputCollector Emit / Finish / validate).
+(* Model/C16.v (DESIGN: HttpTurn) — one exchange stream (or one producer stream with
+   producer batch limit 1) over HTTP, as a history of continuation requests
+   (vgirpc/http_stream.go handleStreamInit / handleStreamExchange ->
+   handleStreamCancel / handleExchangeCall / handleProducerContinuation ->
+   runProduceLoopInto, stripFrameworkTickMetadata, requestMetadata, packCursorToken,
+   writeStateTokenBatch; vgirpc/stream.go OutputCollector Emit / ClientLog / Finish /
+   validate: batches are flushed in the order they were collected, the data batch
+   is the one at dataBatchIdx).
 
    The server keeps no per-stream state: a cursor token seals the whole state, so
    the state a request runs against is a function of the cursor it presents.
@@ -51,7 +55,8 @@ Inductive act :=
 | AEmit | AEmit0 | AEmit2 | AEmit2Ignore | ANoEmit | AFinish | AEmitFinish | AErr (f : C04.failure).
 Record tscript := { t_logs : list C04.logmsg; t_act : act; t_value : Z;
                     t_meta : kvlist;      (* EmitWithMetadata map *)
-                    t_peek : bool }.      (* the handler reads the input batch's own metadata *)
+                    t_peek : bool;        (* the handler reads the input batch's own metadata *)
+                    t_late : list C04.logmsg }.   (* out.ClientLog calls AFTER the first successful Emit of the turn *)
 Inductive cscript := CNone | COk | CErr | CPanic.   (* no OnCancel | returns nil | returns an error | panics *)
 
 Inductive body := BData (vals : list Z) | BTick.    (* {x:int64} batch | empty-schema batch *)
@@ -59,15 +64,17 @@ Record op := { o_meta : rmeta; o_body : body }.
 
 Record input := { i_turns : list tscript; i_cancel : cscript;
                   i_cache : bool;          (* call-state cache enabled *)
-                  i_ops : list op }.
+                  i_ops : list op;
+                  i_prod : bool }.         (* a PRODUCER stream (batch limit 1: one Produce per request, turn 0 inside /init) *)
 
 (* ---- observables ----------------------------------------------------------- *)
-Inductive tr := TInit | TEx (pos : N) (insum : Z) | TCancel (pos : N) | TOther (what : bytes).
+Inductive tr := TInit | TEx (pos : N) (insum : Z) | TProd (pos : N) | TCancel (pos : N) | TOther (what : bytes).
 Definition tr_eqb (a b : tr) : bool :=
   match a, b with
   | TInit, TInit => true
   | TEx p x, TEx q y => (p =? q) && Z.eqb x y
   | TCancel p, TCancel q => p =? q
+  | TProd p, TProd q => p =? q
   | TOther x, TOther y => beqb x y
   | _, _ => false
   end.
@@ -106,7 +113,7 @@ Definition insum (b : body) : Z := match b with BData v => zsum v | BTick => 0%Z
 Definition is_tick (b : body) : bool := match b with BTick => true | BData _ => false end.
 
 Definition default_turn : tscript :=
-  {| t_logs := []; t_act := AEmit; t_value := 0; t_meta := []; t_peek := false |}.
+  {| t_logs := []; t_act := AEmit; t_value := 0; t_meta := []; t_peek := false; t_late := [] |}.
 Definition turn_at (i : input) (p : N) : tscript := nth (N.to_nat p) (i_turns i) default_turn.
 
 Definition is_ss (kv : bytes * bytes) : bool := beqb (fst kv) c16_meta_stream_state.
@@ -116,19 +123,26 @@ Definition turn_exc_msg (f : C04.failure) : bytes :=
 
 Inductive tres :=
 | TROk (frames : list frame) (user_cur : list mval)   (* flushed batches; what the emit metadata put under the stream-state key *)
+| TRFin (frames : list frame) (user_cur : list mval)  (* producer only: out.Finish() accepted, the stream is over *)
 | TRErr (e : frame).                                  (* everything collected is dropped, one EXCEPTION batch *)
 
-Definition turn (t : tscript) (x : Z) : tres :=
+(* the collector holds the batches in the order the calls were made: logs raised before
+   the Emit, the data batch, logs raised after it *)
+Definition turn (prod : bool) (t : tscript) (x : Z) : tres :=
   let logs := map (C04.log_frame []) (t_logs t) in
+  let late := map (C04.log_frame []) (t_late t) in
   let m := kv_sort (t_meta t) in                              (* a Go map: last write wins *)
   let um := filter (fun kv => negb (is_ss kv)) m in
   let uc := map (fun kv => VLit (snd kv)) (filter is_ss m) in
+  let data1 := FData 1 [(t_value t + x)%Z] um in
+  let fin_ex := TRErr (exc c11_exc_finish_exchange c11_err_finish_exchange) in
   match t_act t with
-  | AEmit | AEmit2Ignore => TROk (logs ++ [FData 1 [(t_value t + x)%Z] um]) uc
-  | AEmit0 => TROk (logs ++ [FData 0 [] um]) uc
+  | AEmit | AEmit2Ignore => TROk (logs ++ [data1] ++ late) uc
+  | AEmit0 => TROk (logs ++ [FData 0 [] um] ++ late) uc
   | AEmit2 => TRErr (exc c11_exc_two_batches c11_err_two_batches)
   | ANoEmit => TRErr (exc c11_exc_no_data c11_err_no_data)
-  | AFinish | AEmitFinish => TRErr (exc c11_exc_finish_exchange c11_err_finish_exchange)
+  | AFinish => if prod then TRFin logs [] else fin_ex
+  | AEmitFinish => if prod then TRFin (logs ++ [data1] ++ late) uc else fin_ex
   | AErr f => TRErr (exc (C04.exc_type f) (turn_exc_msg f))
   end.
 
@@ -145,9 +159,14 @@ Fixpoint first_of (curs : list (list mval)) : option mval :=
   | c :: rest => match head_nonempty c with Some v => Some v | None => first_of rest end
   end.
 
-(* per-frame cursor values of a validated turn: the user's, then the fresh cursor, on the data batch only *)
+(* exchange: per-frame cursor values of a validated turn: the user's, then the fresh cursor, on the
+   batch at dataBatchIdx only *)
 Definition curs_of (fs : list frame) (uc : list mval) (fresh : mval) : list (list mval) :=
   map (fun f => if is_data f then uc ++ [fresh] else []) fs.
+(* producer: the data batch carries the emit metadata only; the cursor follows on its own zero-row batch *)
+Definition curs_prod (fs : list frame) (uc : list mval) : list (list mval) :=
+  map (fun f => if is_data f then uc else []) fs.
+Definition sentinel : frame := FData 0 [] [].
 
 (* ---- the continuation route, in the order of the code --------------------- *)
 Definition has_canceller (c : cscript) : bool := match c with CNone => false | _ => true end.
@@ -162,14 +181,16 @@ Definition refuse (ety : bytes) (o : op) : resp :=
 (* [leaks] = the code before fix 270d950: the batch handed to Exchange kept the request's full metadata *)
 Definition seen_of (leaks : bool) (t : tscript) (m : rmeta) : seen :=
   {| sn_meta := strip m; sn_batch := if t_peek t then Some (if leaks then m else strip m) else None; sn_leak := false |}.
+(* Produce gets no input batch *)
+Definition seen_prod (m : rmeta) : seen := {| sn_meta := m; sn_batch := None; sn_leak := false |}.
 
 (* handleStreamExchange up to the mode switch: every check that can refuse the request, in code order *)
 Inductive verdict := VRefuse (ety : bytes) | VAccept (p : N).
 Definition cancelled (o : op) : bool := has_key c16_meta_cancel (o_meta o).
 Definition gate (i : input) (minted : list N) (o : op) : verdict :=
   let m := o_meta o in
-  (* cast against the registered input schema, skipped on cancel *)
-  if negb (cancelled o) && is_tick (o_body o) then VRefuse c14_exc_cast else
+  (* cast against the registered input schema (a producer registers none), skipped on cancel *)
+  if negb (i_prod i) && negb (cancelled o) && is_tick (o_body o) then VRefuse c14_exc_cast else
   match get_first c16_meta_stream_state m with
   | None => VRefuse exc_runtime_error                        (* Missing state token *)
   | Some v =>
@@ -182,6 +203,22 @@ Definition gate (i : input) (minted : list N) (o : op) : verdict :=
       end
   end.
 
+(* one Produce cycle and what runProduceLoopInto + its caller write for it (batch limit 1):
+   [sn] = what the handler is shown, [pre] = calls made before the Produce in this request,
+   [withcall] = the token batch also hands over the call token (/init) *)
+Definition produce_resp (i : input) (minted : list N) (p : N) (sn : seen) (pre : list tr) (withcall : bool) (st : rmeta)
+  : resp * list N :=
+  let mk := fun fs cs pos hc =>
+    {| r_status := 200; r_errhdr := false; r_schema := out_schema; r_frames := fs; r_curs := cs;
+       r_first := first_of cs; r_hascall := hc; r_pos := pos; r_seen := Some sn;
+       r_trace := pre ++ [TProd p]; r_strip := st |} in
+  match turn true (turn_at i p) 0 with
+  | TRErr e => (mk [e] [[]] None false, minted)                 (* in-band error, status stays 200 *)
+  | TRFin fs uc => (mk fs (curs_prod fs uc) None false, minted)
+  | TROk fs uc =>
+      (mk (fs ++ [sentinel]) (curs_prod fs uc ++ [[VCur (length minted)]]) (Some (p + 1)) withcall, minted ++ [p + 1])
+  end.
+
 Definition handle (leaks : bool) (i : input) (minted : list N) (o : op) : resp * list N :=
   let m := o_meta o in
   match gate i minted o with
@@ -192,15 +229,19 @@ Definition handle (leaks : bool) (i : input) (minted : list N) (o : op) : resp *
         ({| r_status := 200; r_errhdr := false; r_schema := out_schema; r_frames := []; r_curs := [];
             r_first := None; r_hascall := false; r_pos := None; r_seen := None;
             r_trace := if has_canceller (i_cancel i) then [TCancel p] else []; r_strip := strip m |}, minted)
+      else if i_prod i then
+        (* handleProducerContinuation: the request metadata, stripped, is the tick metadata *)
+        produce_resp i minted p (seen_prod (strip m)) [] false (strip m)
       else
         (* handleExchangeCall *)
         let t := turn_at i p in
         let x := insum (o_body o) in
-        match turn t x with
+        match turn false t x with
         | TRErr e =>
             ({| r_status := 200; r_errhdr := true; r_schema := out_schema; r_frames := [e]; r_curs := [[]];
                 r_first := None; r_hascall := false; r_pos := None; r_seen := Some (seen_of leaks t m);
                 r_trace := [TEx p x]; r_strip := strip m |}, minted)
+        | TRFin fs uc => (refuse [] o, minted)   (* unreachable: an exchange collector refuses Finish *)
         | TROk fs uc =>
             let cs := curs_of fs uc (VCur (length minted)) in
             ({| r_status := 200; r_errhdr := false; r_schema := out_schema; r_frames := fs; r_curs := cs;
@@ -217,16 +258,24 @@ Fixpoint run (leaks : bool) (i : input) (minted : list N) (ops : list op) : list
 
 (* POST /init of an exchange method: no turn runs, a zero-row batch hands over cursor 0 and the call token *)
 Definition init_resp : resp :=
-  {| r_status := 200; r_errhdr := false; r_schema := out_schema; r_frames := [FData 0 [] []]; r_curs := [[VCur 0]];
+  {| r_status := 200; r_errhdr := false; r_schema := out_schema; r_frames := [sentinel]; r_curs := [[VCur 0]];
      r_first := Some (VCur 0); r_hascall := true; r_pos := Some 0; r_seen := None; r_trace := [TInit]; r_strip := [] |}.
+(* POST /init of a producer: turn 0 runs inside it; its tick metadata is requestMetadata(req): the
+   init request's own metadata sorted by key (the harness sends method and request version) *)
+Definition init_meta : rmeta :=
+  [(c03_meta_method, VLit (str "c16p")); (c03_meta_request_version, VLit c03_request_version)].
+Definition init_prod (i : input) : resp * list N := produce_resp i [] 0 (seen_prod init_meta) [TInit] true [].
 
-Definition model_gen (leaks : bool) (i : input) : obs := init_resp :: run leaks i [0] (i_ops i).
+Definition model_gen (leaks : bool) (i : input) : obs :=
+  if i_prod i then let (r0, m0) := init_prod i in r0 :: run leaks i m0 (i_ops i)
+  else init_resp :: run leaks i [0] (i_ops i).
 (* the CURRENT code (after fix 270d950) *)
 Definition model : input -> obs := model_gen false.
 Definition model_legacy : input -> obs := model_gen true.
 
 (* ---- the property in decidable form, on the implementation's observables --- *)
 Definition act_ok (a : act) : bool := match a with AEmit | AEmit0 | AEmit2Ignore => true | _ => false end.
+Definition act_fin (a : act) : bool := match a with AFinish | AEmitFinish => true | _ => false end.
 
 (* the client put tokens only where the protocol puts them *)
 Definition is_token_key (k : bytes) : bool := beqb k c16_meta_stream_state || beqb k c16_meta_call_state.
@@ -235,17 +284,27 @@ Definition no_token (m : rmeta) : bool := forallb (fun kv => negb (is_tok (snd k
 Definition no_fw_key (m : rmeta) : bool := forallb keep m.
 
 Definition is_none {A} (x : option A) : bool := match x with None => true | Some _ => false end.
-Definition all_empty (cs : list (list mval)) : bool := forallb (fun c => match c with [] => true | _ => false end) cs.
+Definition is_nil {A} (x : list A) : bool := match x with [] => true | _ => false end.
+Definition all_empty (cs : list (list mval)) : bool := forallb is_nil cs.
 Definition no_cursor (r : resp) : bool := all_empty (r_curs r) && is_none (r_first r) && is_none (r_pos r).
 
-(* the cursor rides the data batch and nothing else: on a data batch the LAST stream-state value is [fresh] *)
+(* exchange: the cursor rides THE data batch and no other batch (in particular no log batch): on a
+   data batch the LAST stream-state value is [fresh], every other batch has none *)
 Fixpoint cursor_on_data (fs : list frame) (cs : list (list mval)) (fresh : mval) : bool :=
   match fs, cs with
   | [], [] => true
   | f :: fs', c :: cs' =>
-      (if is_data f then mval_eqb (last c (VLit [])) fresh && negb (match c with [] => true | _ => false end)
-       else match c with [] => true | _ => false end)
+      (if is_data f then mval_eqb (last c (VLit [])) fresh && negb (is_nil c) else is_nil c)
       && cursor_on_data fs' cs' fresh
+  | _, _ => false
+  end.
+(* producer: within the turn's own batches no batch carries a token; only a data batch may carry
+   (literal) values under the stream-state key, put there by the emit metadata *)
+Definition lits (c : list mval) : bool := forallb (fun v => negb (is_tok v)) c.
+Fixpoint bare (fs : list frame) (cs : list (list mval)) : bool :=
+  match fs, cs with
+  | [], [] => true
+  | f :: fs', c :: cs' => (if is_data f then lits c else is_nil c) && bare fs' cs'
   | _, _ => false
   end.
 
@@ -257,27 +316,58 @@ Definition handler_view_ok (m : rmeta) (s : seen) : bool :=
   && (negb (tokens_proper m)
       || (no_token (sn_meta s) && match sn_batch s with None => true | Some b => no_token b end && negb (sn_leak s))).
 
+(* which requests must be accepted, decided from the request and the cursors handed out so far *)
+Definition expect (i : input) (known : list N) (o : op) : option N :=
+  let m := o_meta o in
+  match get_first c16_meta_stream_state m with
+  | None => None
+  | Some v =>
+      match presented known v with
+      | None => None
+      | Some p =>
+          if (i_cache i || call_ok (get_first c16_meta_call_state m))
+             && (cancelled o || i_prod i || negb (is_tick (o_body o)))
+          then Some p else None
+      end
+  end.
+
+(* one producer cycle (batch limit 1): a validated turn = its batches with exactly one data batch
+   and no token, then ONE zero-row batch carrying exactly the fresh cursor; a finished turn and a
+   failed turn carry no cursor *)
+Definition spec_produce (t : tscript) (fresh : mval) (p : N) (r : resp) : bool :=
+  Z.eqb (r_status r) 200 && negb (r_errhdr r) &&
+  if act_ok (t_act t) then
+    let body := removelast (r_frames r) in
+    frame_eqb (last (r_frames r) FToken) sentinel && list_eqb mval_eqb (last (r_curs r) []) [fresh]
+    && negb (is_nil (r_frames r)) && negb (is_nil (r_curs r))
+    && Nat.eqb (count is_data body) 1 && Nat.eqb (count is_exc body) 0 && bare body (removelast (r_curs r))
+    && opt_eqb N.eqb (r_pos r) (Some (p + 1))
+  else if act_fin (t_act t) then
+    Nat.eqb (count is_exc (r_frames r)) 0 && Nat.leb (count is_data (r_frames r)) 1
+    && bare (r_frames r) (r_curs r) && is_none (r_pos r)
+  else
+    match r_frames r with [FExc _ _ _ _] => true | _ => false end && no_cursor r.
+
 Definition spec_step (i : input) (known : list N) (o : op) (r : resp) : bool :=
   let m := o_meta o in
-  let cancelled := cancelled o in
-  let cur := match get_first c16_meta_stream_state m with Some v => presented known v | None => None end in
-  let callfine := i_cache i || call_ok (get_first c16_meta_call_state m) in
-  let shape := cancelled || negb (is_tick (o_body o)) in
   rmeta_eqb (r_strip r) (strip m) && negb (r_hascall r) &&
-  match cur with
+  match expect i known o with
   | Some p =>
-      if callfine && shape then
-        Z.eqb (r_status r) 200 &&
-        if cancelled then
-          (* the cancel hook once, an empty stream, no cursor, no Exchange *)
-          match r_frames r with [] => true | _ => false end && no_cursor r && negb (r_errhdr r)
-          && list_eqb tr_eqb (r_trace r) (if has_canceller (i_cancel i) then [TCancel p] else [])
-          && is_none (r_seen r)
+      Z.eqb (r_status r) 200 &&
+      if cancelled o then
+        (* the cancel hook once, an empty stream, no cursor, no Produce / Exchange *)
+        is_nil (r_frames r) && no_cursor r && negb (r_errhdr r)
+        && list_eqb tr_eqb (r_trace r) (if has_canceller (i_cancel i) then [TCancel p] else [])
+        && is_none (r_seen r)
+      else
+        let t := turn_at i p in
+        match r_seen r with Some s => handler_view_ok m s | None => false end &&
+        if i_prod i then
+          (* exactly one Produce, at the position the presented cursor seals *)
+          list_eqb tr_eqb (r_trace r) [TProd p] && spec_produce t (VCur (length known)) p r
         else
-          let t := turn_at i p in
           (* exactly one Exchange, at the position the presented cursor seals *)
           list_eqb tr_eqb (r_trace r) [TEx p (insum (o_body o))]
-          && match r_seen r with Some s => handler_view_ok m s | None => false end
           && if act_ok (t_act t) then
                negb (r_errhdr r)
                && Nat.eqb (count is_data (r_frames r)) 1 && Nat.eqb (count is_exc (r_frames r)) 0
@@ -287,12 +377,9 @@ Definition spec_step (i : input) (known : list N) (o : op) (r : resp) : bool :=
                r_errhdr r
                && match r_frames r with [FExc _ _ _ _] => true | _ => false end
                && no_cursor r
-      else
-        (400 <=? r_status r)%Z && (r_status r <? 500)%Z && no_cursor r
-        && match r_trace r with [] => true | _ => false end && is_none (r_seen r) && forallb is_exc (r_frames r)
   | None =>
       (400 <=? r_status r)%Z && (r_status r <? 500)%Z && no_cursor r
-      && match r_trace r with [] => true | _ => false end && is_none (r_seen r) && forallb is_exc (r_frames r)
+      && is_nil (r_trace r) && is_none (r_seen r) && forallb is_exc (r_frames r)
   end.
 
 (* the cursors the IMPLEMENTATION handed out so far, by the position each seals *)
@@ -310,9 +397,17 @@ Definition spec_init (r : resp) : bool :=
   Z.eqb (r_status r) 200 && negb (r_errhdr r) && r_hascall r
   && cursor_on_data (r_frames r) (r_curs r) (VCur 0) && Nat.eqb (count is_data (r_frames r)) 1
   && opt_eqb N.eqb (r_pos r) (Some 0) && is_none (r_seen r) && list_eqb tr_eqb (r_trace r) [TInit].
+Definition spec_init_prod (i : input) (r : resp) : bool :=
+  list_eqb tr_eqb (r_trace r) [TInit; TProd 0]
+  && match r_seen r with
+     | Some s => rmeta_eqb (sn_meta s) init_meta && is_none (sn_batch s) && negb (sn_leak s)
+     | None => false
+     end
+  && Bool.eqb (r_hascall r) (act_ok (t_act (turn_at i 0)))
+  && spec_produce (turn_at i 0) (VCur 0) 0 r.
 
 Definition spec_ok (i : input) (o : obs) : bool :=
   match o with
-  | r0 :: rs => spec_init r0 && spec_run i (learn [] r0) (i_ops i) rs
+  | r0 :: rs => (if i_prod i then spec_init_prod i r0 else spec_init r0) && spec_run i (learn [] r0) (i_ops i) rs
   | [] => false
   end.
